@@ -88,7 +88,9 @@ fn explore_one(case: &Case, sib: &Case, other: &Case, depth: usize, seed: u64) -
             }
         }
     }
-    if !(a.eq_dyn(&*a2) && a.eq_dyn(&*b)) {
+    // values that are not equal to themselves (NaN in a derived field: parameters in the overflow region, outside E)
+    // cannot be judged for equality
+    if a.eq_dyn(&*a) && !(a.eq_dyn(&*a2) && a.eq_dyn(&*b)) {
         viol.push(("equality".to_string(), "A, its clone and a second value built from equal parameters do not compare equal after the exploration".to_string()));
     }
     // sample_iter vs repeated sample
